@@ -1,5 +1,7 @@
 import JadeModel.Model.Lifecycle
 
+set_option linter.unusedSimpArgs false
+
 /-!
 Helper lemmas for C16.
 
@@ -548,5 +550,26 @@ theorem nodeCliTrace_split_nodeTeardown (c : Ctx) (pre post : List Ev) (env : Li
     have hmem : Ev.hook .nodeTeardown env rc ∈ nodeSetupEvs c := by rw [h]; simp
     unfold nodeSetupEvs at hmem
     grind
+
+/-! ### counting -/
+
+theorem completionEvs_count_flag (c : Ctx) : (completionEvs c).countP (·.isFlag) = 1 := by
+  unfold completionEvs teardownEvs reportsEvs nextStageEvs
+  cases c.cfg.teardown <;> cases c.cfg.reports <;> cases c.cfg.pipelineStage <;> simp [Ev.isFlag, List.countP_cons]
+
+theorem completionEvs_count_teardown (c : Ctx) :
+    (completionEvs c).countP (·.isHookOf .teardown) = if c.cfg.teardown then 1 else 0 := by
+  unfold completionEvs teardownEvs reportsEvs nextStageEvs
+  cases c.cfg.teardown <;> cases c.cfg.reports <;> cases c.cfg.pipelineStage <;> simp [Ev.isHookOf, List.countP_cons]
+
+theorem beforeCompletion_count (c : Ctx) (p : Ev → Bool) (hp : ∀ e, p e = true → e.isCompletion = true) :
+    (beforeCompletion c).countP p = 0 := by
+  rw [List.countP_eq_zero]
+  intro e he hpe
+  have := beforeCompletion_not_completion c e he
+  rw [hp e hpe] at this
+  cases this
+
+theorem noLegacy_noHooks (cfg : Cfg) (hl : NoLegacy cfg) : NoLegacy cfg.noHooks := hl
 
 end Jade.Lifecycle
